@@ -8,7 +8,7 @@ import numpy
 import z3
 from vf import core, smt, symnp
 from vf.symnp import SymArr, Sc, prove_arrays_equal, SymNumpy
-from contracts.nonshear_env import Env, HK, K_RY, H_RY
+from contracts.nonshear_env import Env, HK, K_RY, H_RY, constant_globals
 from specs import phonon
 
 LEVEL = "proof"
@@ -411,21 +411,23 @@ def crosscheck_numpy(s, ns):
             # real numpy, symbolic scalars as elements
             real, stub = {}, {}
             for what in ("value_isothermal", "isothermal_to_adiabatic"):
-                with patched(ns, units=UnitsStub(ns), h_div_k=Sc(HK)):
+                with patched(ns, units=UnitsStub(ns), h_div_k=Sc(HK), **constant_globals(ns)):
                     try:
                         real[what] = getattr(build(True), what)
                     except Exception as e:                   # the real code rejects these shapes under real numpy
                         real[what] = ("raises", type(e).__name__)
-                with patched(ns, numpy=SymNumpy(), units=UnitsStub(ns), h_div_k=Sc(HK)), \
+                with patched(ns, numpy=SymNumpy(), units=UnitsStub(ns), h_div_k=Sc(HK), **constant_globals(ns)), \
                         class_attr(ns.LongitudinalElasticModulusPhononContribution, "q_weights", property(lambda self: symnp.from_numpy(wq))):
                     try:
                         stub[what] = getattr(build(False), what)
                     except symnp.ShapeObligation as e:
                         stub[what] = ("raises", "ShapeObligation")
+                    except (TypeError, AttributeError, NotImplementedError) as e:
+                        raise core.OutsideSubset("the code uses the numpy stub in a way it does not model: %r" % (e,))
             for what in list(real):
                 if isinstance(real[what], tuple) or isinstance(stub[what], tuple):
                     n += 1
-                    if isinstance(real[what], tuple) and real[what][1] == "OutsideSubset":
+                    if isinstance(real[what], tuple) and real[what][1] in ("OutsideSubset", "TypeError", "AttributeError", "NotImplementedError"):
                         pass        # the object-array run of real numpy met a value-dependent branch it cannot take: not comparable (no verdict either way)
                     elif not (isinstance(real[what], tuple) and isinstance(stub[what], tuple)):
                         mism.append((kind, what, "real numpy: %r, stub: %r" % (real[what] if isinstance(real[what], tuple) else "returns", stub[what] if isinstance(stub[what], tuple) else "returns")))
